@@ -237,6 +237,8 @@ pub fn run_c07(ctx: &mut Ctx) {
         "connections of 1..4 requests x 3 roles x keep-connection on/off x bodies (empty .. multi-record) x management / unknown-type / foreign-id noise x handler family (read all / part / nothing via read or fill_buf+consume; 0..4 chunks to stdout/stderr with flushes; every ExitStatus kind, handler I/O errors) \
          x transports answering reads and writes with 1..n bytes or Pending; the client releases request i+1 only after EndRequest i reached it. Oracle: independent record decoder on the byte log + handler invocation log. Non-trivial: all; distinct by case");
     let mut rng = ctx.rng.fork();
+    // the worked examples and replays behind the end-to-end theorems (corpus/C07_e2e_*.txt): compared with the model on every run
+    crate::exec::witness_corpus(&["C07_"], &mut log, &mut im, &mut or);
     for ci in 0..ctx.n(1500, 8000) {
         if or.saturated() { or.count("stopped_early_saturated"); break; }
         let k = 1 + rng.usize_below(4);
@@ -421,6 +423,8 @@ pub fn run_c11(ctx: &mut Ctx) {
         "an AbortRequest (body 0..64 bytes, padding 0..255) for the request in progress placed after every record position of the preamble and of each input stream, or for a foreign id; handlers that read to the end / read a little / buffered-read / do not read / are already past end-of-stream, propagating or ignoring the read error and returning their own status; \
          followed by 0..2 further requests on the same connection; C07 transport patterns. Oracle: record decoder on the byte log + handler log. Non-trivial: all; distinct by case");
     let mut rng = ctx.rng.fork();
+    // the worked examples and replays behind the end-to-end theorems (corpus/C11_e2e_*.txt): compared with the model on every run
+    crate::exec::witness_corpus(&["C11_"], &mut log, &mut im, &mut or);
     for ci in 0..ctx.n(2000, 10000) {
         if or.saturated() { or.count("stopped_early_saturated"); break; }
         let k = 1 + rng.usize_below(3);
@@ -516,6 +520,8 @@ pub fn run_c12(ctx: &mut Ctx) {
         "for each scripted connection (1..2 requests, C07 handler family incl. propagating and ignoring handlers): EOF injected at every byte offset 0..N of the input (thorough, connections up to 700 wire bytes; otherwise strided + all record boundaries -1,0,+1,+8), a read error at every read-call index, a write error and a zero-length write at every write-call index, \
          combined with the C07 read/write chunking patterns. Oracle: the task returns (never panics, stalls or spins); no handler for an incomplete preamble; no successful short read-to-end; nothing accepted after a failed write for a propagating handler; the log is a prefix of a record sequence. Non-trivial: all; distinct by (connection, fault)");
     let mut rng = ctx.rng.fork();
+    // the worked examples and replays behind the end-to-end theorems (corpus/C12_e2e_*.txt): compared with the model on every run
+    crate::exec::witness_corpus(&["C12_"], &mut log, &mut im, &mut or);
     let thorough = ctx.tier_thorough || ctx.widen;
     // corpus first: minimised past failures; every case is a fault run whose handlers all propagate I/O errors
     let corpus = std::path::Path::new(env!("CARGO_MANIFEST_DIR")).join("../corpus/C12.txt");
